@@ -53,6 +53,8 @@ def random_edits(rnd, additions):
             else:
                 out.append({'k': 'emplace', 'type': rnd.choice(['term', 'term', 'axiom', 'function']),
                             'def': fg.fill(rnd, rnd.choice(ADD_DEFS + ['$[%d]=$[%d]', '[α∈ℬ($[%d])] α∪$[%d]']), 12, dangling=0)})
+        elif r < 0.45:
+            out.append({'k': 'swapdefs', 'i': n, 'j': rnd.randrange(12)})
         elif r < 0.6:
             out.append({'k': 'setexpr', 'i': n, 'text': fg.fill(rnd, rnd.choice(ADD_DEFS + ['ℬ($[%d]×$[%d])', '']), 12, dangling=0)})
         elif r < 0.7:
